@@ -11,7 +11,7 @@
      unhurried    no writer is slower than STALE_CREATE while an eviction round runs       (finding stale-writer-readable) *)
 From Coq Require Import List NArith ZArith String Bool Sorted Permutation.
 From EKW Require Import Shm.Lottery Shm.LotteryProofs Shm.Manager Shm.ManagerProofs Shm.ManagerLive Shm.ManagerBytes.
-From EKW Require Import Shm.ManagerReaders Shm.ManagerLocks Shm.ManagerLocksProofs.
+From EKW Require Import Shm.ManagerReaders Shm.ManagerLocks Shm.ManagerLocksProofs Shm.ManagerStuck.
 From EKW Require Shm.ManagerCheck.   (* not used here: keeps the correspondence checker's .vo in step with the model *)
 Import ListNotations.
 Open Scope string_scope.
@@ -195,6 +195,31 @@ Proof.
   split; [exact purge_section_iff_credit|]. split; [exact purge_inside_section_blocks|exact failed_pageout_reaches_purge_section].
 Qed.
 
+(* FULL statement of the last clause ("a request that can be satisfied by evicting idle datasets is eventually granted
+   instead of answering wait for ever", for every completion of the disk jobs INCLUDING FAILED ONES) is not proved by
+   any theorem above -- none of them is a `_partial` of it; it was checked by the patient-client epilogue only -- and
+   it is FALSE (open finding failed-pageout-under-stale-reader-stuck): a dataset whose only reader is stale is
+   selected for eviction; its page file cannot be written; the callback's purge is delayed by that reader; the lock
+   is released and no job is left, but the dataset stays in paging_out however the history continues (`more`: any
+   requests, the reader's late close, purges, every job half): get answers wait, the reader's close is refused,
+   the key cannot be allocated again, it is never an eviction candidate, its 3 of 4 bytes are never returned. *)
+Theorem C09_failed_pageout_under_stale_reader_refuted :
+  exists cap ops k,
+    (let s := exec (init cap) ops in
+     lock s = false /\ count s = 0 /\ jobs s = [] /\ free s = 1 /\ lookup k (segs s) = Some [1;2;3]%N /\
+     exists ds, lookup k (dsets s) = Some ds /\ d_status ds = PagingOut /\ d_delayed ds = true /\
+                d_readers ds = [(7%N, 2)] /\ no_fresh_read 900000000010 ds = true) /\
+    forall more,
+      let s := exec (init cap) (ops ++ more) in
+      (exists ds, lookup k (dsets s) = Some ds /\ d_status ds = PagingOut) /\
+      (forall now u, step s (Get k now u) = (s, RErr "wait")) /\
+      (forall r, step s (Close k r) = (s, RErr "ValueError")) /\
+      (forall size now, step s (Add k size now) = (s, RErr "conflict")) /\
+      (forall now ds, lookup k (dsets s) = Some ds -> is_pageoutable now ds = false).
+Proof.
+  exists 4, stuck_witness, 1%N. split; [exact (proj2 stuck_reached)|exact failed_pageout_under_stale_reader_stuck].
+Qed.
+
 (* ------------------------------------------------------------------ non-vacuity *)
 (* capacity 4: a and b written and closed, b read once and closed; a reader holds a; c does not fit: b (idle) is evicted,
    a (held) is not; b is purged while... ; then b is read back through a page-in *)
@@ -295,3 +320,4 @@ Print Assumptions C09_lock_leak_before_fix_refuted.
 Print Assumptions C09_reader_table_exact.
 Print Assumptions C09_handlers_never_block.
 Print Assumptions C09_purge_only_outside_sections.
+Print Assumptions C09_failed_pageout_under_stale_reader_refuted.
